@@ -37,13 +37,14 @@ var (
 
 // Case is one evaluated element of the space (and the replay format).
 type Case struct {
-	Kind  string `json:"kind"` // ws | quic | quic-dgram | wt | wt-dgram | loop-ws | loop-quic | loop-wt | group
-	Cfg   Cfg    `json:"cfg"`
-	Seq   []Msg  `json:"seq,omitempty"`
-	Dir   string `json:"dir,omitempty"`   // ws: simplex | duplex
-	Rd    int    `json:"rd,omitempty"`    // ws: delivery mode of the in-memory frame reader
-	Split []int  `json:"split,omitempty"` // stream transports: cut points of the byte stream (<=2 cuts = <=3 fragments)
-	Group *Group `json:"group,omitempty"` // kind=group: a whole group (used when a worker process died)
+	Kind    string `json:"kind"` // ws | quic | quic-dgram | wt | wt-dgram | loop-ws | loop-quic | loop-wt | group
+	Cfg     Cfg    `json:"cfg"`
+	Seq     []Msg  `json:"seq,omitempty"`
+	Dir     string `json:"dir,omitempty"`     // ws: simplex | duplex
+	Rd      int    `json:"rd,omitempty"`      // ws: delivery mode of the in-memory frame reader
+	Split   []int  `json:"split,omitempty"`   // stream transports: cut points of the byte stream (<=2 cuts = <=3 fragments)
+	Backend string `json:"backend,omitempty"` // loop-ws: coder | gorilla | nhooyr
+	Group   *Group `json:"group,omitempty"`   // kind=group: a whole group (used when a worker process died)
 }
 
 func (c Case) String() string {
@@ -53,6 +54,9 @@ func (c Case) String() string {
 	}
 	if c.Rd != 0 {
 		s += fmt.Sprintf(" rd%d", c.Rd)
+	}
+	if c.Backend != "" {
+		s += " " + c.Backend
 	}
 	if c.Split != nil {
 		s += fmt.Sprintf(" split%v", c.Split)
@@ -77,6 +81,8 @@ type resp struct {
 	N      int64  `json:"n,omitempty"`
 	Fam    string `json:"fam,omitempty"`
 	Hung   bool   `json:"hung,omitempty"`
+	Inc    int64  `json:"inc,omitempty"`    // loopback cases that were inconclusive (network/timing)
+	IncWhy string `json:"incwhy,omitempty"` // first reason
 	Sample *Case  `json:"sample,omitempty"`
 }
 
@@ -118,12 +124,35 @@ func runCase(c Case) []V {
 	return []V{{"C13.harness:unknown-kind", c.Kind}}
 }
 
+const childMemLimit = 6 << 30
+
+// childWatchdog ends the worker when the supervisor is gone or when the process has grown beyond any
+// legitimate need (a corrupted length prefix can make the library allocate gigabytes).
+func childWatchdog() {
+	ppid := os.Getppid()
+	for {
+		time.Sleep(250 * time.Millisecond)
+		if os.Getppid() != ppid {
+			os.Exit(9)
+		}
+		if b, err := os.ReadFile("/proc/self/statm"); err == nil {
+			var size, rss int64
+			fmt.Sscan(string(b), &size, &rss)
+			if rss*int64(os.Getpagesize()) > childMemLimit {
+				fmt.Fprintf(os.Stderr, "fatal error: c13 worker memory limit exceeded (resident %d MiB)\n", rss*int64(os.Getpagesize())>>20)
+				os.Exit(7)
+			}
+		}
+	}
+}
+
 func childMain(e *vlib.Explore) {
 	if *flagProf != "" {
 		f, _ := os.Create(*flagProf)
 		pprof.StartCPUProfile(f)
 		defer pprof.StopCPUProfile()
 	}
+	go childWatchdog()
 	initContent()
 	gs := groups(e.Thorough())
 	in := bufio.NewReaderSize(os.Stdin, 1<<20)
@@ -150,13 +179,21 @@ func childMain(e *vlib.Explore) {
 				gi = *r.G
 				g = gs[gi]
 			}
-			var n int64
+			var n, inc int64
+			incWhy := ""
 			anyHung := false
 			var sample *Case
 			g.each(func(c Case) bool {
 				n++
 				vs, hung := guarded(c)
 				for _, v := range vs {
+					if strings.HasPrefix(v.Sig, inconclusive) {
+						inc++
+						if incWhy == "" {
+							incWhy = v.Sig[len(inconclusive):] + ": " + v.Detail
+						}
+						continue
+					}
 					cc := c
 					enc.Encode(resp{T: "v", Sig: v.Sig, Detail: v.Detail, Case: &cc, G: gi})
 				}
@@ -164,13 +201,21 @@ func childMain(e *vlib.Explore) {
 					cc := c
 					sample = &cc
 				}
+				for _, v := range vs {
+					if strings.Contains(v.Sig, "-hang:") {
+						hung = true // a Read that never returns: every further case of the group would wait as well
+					}
+				}
 				if hung {
 					anyHung = true
-					return false // the stuck goroutine may hold a CPU: give up the rest of the group
+					return false // give up the rest of the group (a stuck goroutine may also hold a CPU)
 				}
 				return true
 			})
-			enc.Encode(resp{T: "done", G: gi, N: n, Fam: g.Fam, Hung: anyHung, Sample: sample})
+			if strings.HasPrefix(g.Fam, "loop-") && anyHung {
+				anyHung, inc = false, inc+1 // a timeout on a real connection decides nothing
+			}
+			enc.Encode(resp{T: "done", G: gi, N: n, Fam: g.Fam, Hung: anyHung, Sample: sample, Inc: inc, IncWhy: incWhy})
 			out.Flush()
 		}
 		if err != nil {
@@ -384,14 +429,26 @@ func main() {
 	hangs, deaths := 0, 0
 	aborted := map[string]int{}
 	samples := map[int]*Case{}
+	// a family x mode in which two groups hung or killed their worker is not continued (its remaining
+	// groups would most likely do the same, each costing a watchdog period); everything else goes on
+	loopInc := map[string]int64{}
+	loopIncWhy := map[string]string{}
+	poisoned := map[string]int{}
+	skipped := map[string]int{}
+	pkey := func(g Group) string { return g.Fam + "/" + g.Cfg.Mode }
 	take := func() (int, bool) {
 		mu.Lock()
 		defer mu.Unlock()
-		if next >= len(order) || hangs >= 4 || deaths >= 8 {
-			return 0, false
+		for next < len(order) {
+			gi := order[next]
+			next++
+			if poisoned[pkey(gs[gi])] >= 2 || hangs+deaths >= 24 {
+				skipped[pkey(gs[gi])]++
+				continue
+			}
+			return gi, true
 		}
-		next++
-		return order[next-1], true
+		return 0, false
 	}
 	// per signature: the number of cases and the smallest failing case (deterministic representative)
 	type agg struct {
@@ -453,15 +510,23 @@ func main() {
 					mu.Lock()
 					deaths++
 					aborted[g.Fam]++
+					poisoned[pkey(g)]++
 					mu.Unlock()
 					w = nil
 					continue
 				}
 				e.CaseN(done.Fam, done.N)
 				mu.Lock()
+				if done.Inc > 0 {
+					loopInc[done.Fam] += done.Inc
+					if _, ok := loopIncWhy[done.Fam]; !ok {
+						loopIncWhy[done.Fam] = done.IncWhy
+					}
+				}
 				if done.Hung {
 					hangs++
 					aborted[g.Fam]++
+					poisoned[pkey(g)]++
 				}
 				if done.Sample != nil && (gi+e.Seed)%11 == 0 {
 					samples[gi] = done.Sample
@@ -489,12 +554,15 @@ func main() {
 		s := samples[sidx[k*len(sidx)/min(len(sidx), 8)]]
 		e.Sample(map[string]any{"case": s.String()})
 	}
-	exhaustive := next >= len(order) && len(aborted) == 0 && *flagFam == ""
+	exhaustive := len(aborted) == 0 && len(skipped) == 0 && *flagFam == ""
 	extra := map[string]any{
-		"groups":         len(order),
-		"groups_aborted": aborted,
-		"space":          spaceDescription(e.Thorough()),
-		"not_covered":    notCovered,
+		"groups":                             len(order),
+		"groups_aborted":                     aborted,
+		"loopback_inconclusive_cases":        loopInc,
+		"loopback_inconclusive_first_reason": loopIncWhy,
+		"groups_skipped_after_hangs":         skipped,
+		"space":                              spaceDescription(e.Thorough()),
+		"not_covered":                        notCovered,
 	}
 	e.Finish(rule, exhaustive, extra, assumptions)
 }
